@@ -125,7 +125,7 @@ PROPS["C19"] = {
     "level_note": "as C08",
 }
 PROPS["C02"] = {
-    "groups": [{"run": "^vpH_C02_T_|^vpH_C07_T_leftover$|^vpH_C09_T_stop_(leader|slow_create|window)$"}],
+    "groups": [{"run": "^vpH_C02_T_|^vpH_C07_T_(leftover|stale_read_changed)$|^vpH_C09_T_stop_(leader|slow_create|window)$"}],
     "bounds": {"quick": "TTL margin: H symbolic in [100ms,10s], TTL symbolic in [3H,3H+2s], every store latency symbolic below H/2, three heartbeats, at most 5 store operations: the record replaced by each refresh was still live. Churn: one real instance (H=1s, TTL=3s) next to a protocol-conforming environment ('the others': creates the record when vacant, refreshes / deletes only its own), Stop / StopWithContext{DeleteKey} / {DeleteKey,WaitForDemote} and optional restart placed by the explorer at every store-visible point within 2H, one environment action at every store-visible point within 3H; plus the C07 vacancy scenario and the C09 stop-of-a-leader and slow-Create scenarios; the claim (IsLeader => live record names the instance and carries its token) is checked inside the Metrics.SetIsLeader callback at every flag change and at the end"},
     "outside": "latencies of H/2 and above; preemption (excluded by the statement); more than one environment action per run; 'at most one leader' is the corollary of per-instance claim-backing (a record names one instance) stated in DESIGN section 3, not a two-real-instance exploration",
     "assumptions": ["other instances are represented by the environment thread obeying the protocol (assume-guarantee, DESIGN section 3)"],
@@ -149,7 +149,7 @@ PROPS["C05"] = {
     "level_note": "UUID uniqueness assumed; bounded families; reductions R1/R2.",
 }
 PROPS["C18"] = {
-    "groups": [{"run": "^vpH_C18_T_|^vpH_C08_T_|^vpH_C09_T_stop_(leader|slow_create|twice|window|after_cancel)$|^vpH_C07_T_stale_events$"}],
+    "groups": [{"run": "^vpH_C18_T_|^vpH_C08_T_|^vpH_C09_T_stop_(leader|slow_create|twice|window|after_cancel)$|^vpH_C07_T_(stale_events|stale_read_changed)$"}],
     "bounds": {"quick": "Status() is evaluated at every quiescent point of the C08 family (every cause of term end, two terms, recording Metrics) and after the return of every stop of the C09 stop-of-a-leader / slow-Create / repeated-stop scenarios: IsLeader <=> State == LEADER, State in the documented set, a leader's LeaderID / Token / Revision equal its id, its term token and the revision of its latest successful write in the store, STOPPED with IsLeader false after a stop, last SetIsLeader value == IsLeader(), IncTransitions calls form a chain starting at CANDIDATE; follower harness: LeaderID converges to the id in the live record across a change of owner, with watch events delivered or lost"},
     "outside": "snapshots taken in the middle of a transition (Status() holds the read lock; torn reads of several atomics by lock-free readers are not explored, reduction R1)",
     "assumptions": [],
